@@ -338,3 +338,144 @@ func certSupplyUnit(sp supplyPath) harness.Unit {
 		c.Sample(fmt.Sprintf("%s: %d ways of supplying the client certificate (none / one / several chains, leaf or leaf+intermediate, Leaf pre-parsed or not, static or callback) x 4 server pools x 5 ClientAuth policies; selection and acceptance predicted by a symbolic issuer model", sp.name, len(supplyCases(sp.gm))))
 	}}
 }
+
+// ---- server certificates issued by an intermediate authority ----------------------------------------
+//
+// The server side of the same question: a server whose certificates come from an intermediate CA
+// supplies leaf + intermediate (statically or through the callbacks) and a client that trusts the root
+// must complete; without the intermediate (and a client that does not know it) verification must
+// fail. On the GMSSL path the Certificate message carries the signing certificate first, the
+// encryption certificate second and everything else after them (GM/T 0024 6.4.5.3), so the two chains
+// have to be merged in that order.
+
+type srvChainCase struct {
+	name           string
+	signSub        bool // certificates issued by the intermediate (else directly by the root)
+	sendSign, send bool // the intermediate accompanies the signing / the encryption (TLS: the only) certificate
+	callbacks      bool
+}
+
+func serverChainUnit(gm bool, vers uint16) harness.Unit {
+	name := fmt.Sprintf("server-certificate-chain/TLS%04x", vers)
+	if gm {
+		name = "server-certificate-chain/GMSSL"
+	}
+	return harness.Unit{Name: name, Run: func(c *harness.Ctx) {
+		p := tlsk.Get()
+		app := [2]tlsk.App{{Writes: [][]byte{[]byte("c->s")}, Expect: 4}, {Writes: [][]byte{[]byte("s->c")}, Expect: 4}}
+		var cases []srvChainCase
+		for _, cb := range []bool{false, true} {
+			cases = append(cases, srvChainCase{"issued by the root", false, false, false, cb})
+			for _, ss := range []bool{false, true} {
+				for _, se := range []bool{false, true} {
+					if !gm && ss != se {
+						continue
+					}
+					cases = append(cases, srvChainCase{fmt.Sprintf("issued by the intermediate; intermediate sent with the signing certificate=%v, with the encryption certificate=%v", ss, se), true, ss, se, cb})
+				}
+			}
+		}
+		pools := []poolCase{{"RootCAs={root}", []string{"root"}}, {"RootCAs={root, intermediate}", []string{"root", "sub"}}, {"RootCAs={intermediate}", []string{"sub"}}}
+		for _, sc := range cases {
+			for _, pool := range pools {
+				trim := func(crt gmtls.Certificate, keep bool) gmtls.Certificate {
+					if !keep {
+						crt.Certificate = crt.Certificate[:1]
+					}
+					return crt
+				}
+				scfg := &gmtls.Config{Time: tlsk.FixedTime, Rand: wire.NewRand(11)}
+				ccfg := &gmtls.Config{Time: tlsk.FixedTime, Rand: wire.NewRand(22), ServerName: tlsk.ServerName}
+				var leaves [][]byte
+				if gm {
+					sign, enc := p.Sign, p.Enc
+					if sc.signSub {
+						sign, enc = trim(p.SignSub, sc.sendSign), trim(p.EncSub, sc.send)
+					}
+					leaves = [][]byte{sign.Certificate[0], enc.Certificate[0]}
+					scfg.GMSupport, ccfg.GMSupport = &gmtls.GMSupport{}, &gmtls.GMSupport{}
+					if sc.callbacks {
+						scfg.GetCertificate = func(*gmtls.ClientHelloInfo) (*gmtls.Certificate, error) { return &sign, nil }
+						scfg.GetKECertificate = func(*gmtls.ClientHelloInfo) (*gmtls.Certificate, error) { return &enc, nil }
+					} else {
+						scfg.Certificates = []gmtls.Certificate{sign, enc}
+					}
+					ccfg.RootCAs = gx509.NewCertPool()
+					if in(pool.issuers, "root") {
+						ccfg.RootCAs.AddCert(p.CA)
+					}
+					if in(pool.issuers, "sub") {
+						ccfg.RootCAs.AddCert(p.SubCA)
+					}
+				} else {
+					crt := p.ECDSA
+					if sc.signSub {
+						crt = trim(p.ECDSASub, sc.send)
+					}
+					leaves = [][]byte{crt.Certificate[0]}
+					scfg.MinVersion, scfg.MaxVersion, ccfg.MinVersion, ccfg.MaxVersion = vers, vers, vers, vers
+					if sc.callbacks {
+						scfg.GetCertificate = func(*gmtls.ClientHelloInfo) (*gmtls.Certificate, error) { return &crt, nil }
+					} else {
+						scfg.Certificates = []gmtls.Certificate{crt}
+					}
+					ccfg.RootCAs = gx509.NewCertPool()
+					if in(pool.issuers, "root") {
+						root, err := gx509.ParseCertificate(p.StdCA.Raw)
+						if err != nil {
+							panic(err)
+						}
+						ccfg.RootCAs.AddCert(root)
+					}
+					if in(pool.issuers, "sub") {
+						ccfg.RootCAs.AddCert(p.StdSubCA)
+					}
+				}
+				// symbolic verdict: each leaf reaches an anchor through what was sent
+				want := true
+				if sc.signSub {
+					sentSub := sc.sendSign || sc.send
+					want = in(pool.issuers, "sub") || (sentSub && in(pool.issuers, "root"))
+				} else {
+					want = in(pool.issuers, "root")
+				}
+				var cv, sv tlsk.View
+				o := tlsk.Run(tlsk.GMEnd(ccfg, true, app[0], &cv, nil), tlsk.GMEnd(scfg, false, app[1], &sv, nil), &cv, &sv, nil)
+				label := fmt.Sprintf("%s: server certificates %s (callbacks=%v); client %s", name, sc.name, sc.callbacks, pool.name)
+
+				key := fmt.Sprintf("%s:%s:callbacks=%v:%s", name, sc.name, sc.callbacks, pool.name)
+				c.Add("executions", 1)
+				c.Add("transitions", 1)
+				c.DistinctS("states", label)
+				c.DistinctS("outcomes", fmt.Sprintf("c=%v s=%v want=%v", o.C.Complete, o.S.Complete, want))
+				if o.C.Panic != nil || o.S.Panic != nil {
+					c.Violate("server-certificate-chain:panic:"+panicSite(o.C.Stack+o.S.Stack), fmt.Sprintf("[%s] endpoint panicked: client=%v server=%v\n%s", label, o.C.Panic, o.S.Panic, clip(o.C.Stack+o.S.Stack, 1500)), nil, label)
+					continue
+				}
+				if len(o.Stuck) > 0 || o.Horizon {
+					c.Violate("server-certificate-chain:hang:"+key, fmt.Sprintf("[%s] endpoints did not finish: %v", label, o.Stuck), nil, label)
+					continue
+				}
+				if !want {
+					if o.C.Complete {
+						c.Violate("server-certificate-chain:unverifiable-accepted:"+key, fmt.Sprintf("[%s] no path from the server's certificates to the client's anchors, yet the client completed: %s", label, o.Describe()), nil, label)
+					}
+					continue
+				}
+				if !o.C.Complete || !o.S.Complete {
+					c.Violate("server-certificate-chain:verifiable-refused:"+key, fmt.Sprintf("[%s] the server's certificates chain to an anchor of the client through what the server holds, but the handshake failed: %s", label, o.Describe()), nil, label)
+					continue
+				}
+				for i, l := range leaves {
+					if len(o.C.PeerCerts) <= i || !bytes.Equal(o.C.PeerCerts[i], l) {
+						c.Violate("server-certificate-chain:order:"+key, fmt.Sprintf("[%s] certificate %d seen by the client is not the server's %s certificate", label, i, []string{"signing", "encryption"}[i]), nil, label)
+					}
+				}
+				if !bytes.Equal(o.S.Read, []byte("c->s")) || !bytes.Equal(o.C.Read, []byte("s->c")) {
+					c.Violate("server-certificate-chain:data:"+key, fmt.Sprintf("[%s] %s", label, o.Describe()), nil, label)
+				}
+			}
+		}
+		c.Sample(name + ": server certificates from the root or from an intermediate (sent or not, with either certificate), static or through callbacks, x 3 client pools")
+	}}
+}
